@@ -173,7 +173,10 @@ def check(fr, order):
             and list(res["cast"][1].columns) == list(df.columns):
         out, inf = res["cast"][1], res["infer"][1]
         for l in df.columns:
-            t = inf[l]
+            t = inf.get(l)
+            if t is None:
+                add("C08", "frame-missing-key", "infer_type(frame) has no entry for column %r (keys %s)" % (l, list(inf.keys())))
+                continue
             cin = outcome(lambda: bool(out[l] in t))
             if cin != ["ok", True]:
                 add("C03", "frame:cast-not-in-inferred:%s" % t, "frame column %r inferred %s but its cast data is not contained in it (%s)" % (l, t, cin))
